@@ -75,7 +75,7 @@ class Git():
         outs, errs = self.run(["checkout", branch_name], show_result)
         return outs, errs
     # ##############################################################################################
-    def log(self, git_arguments: typing.Union[str, list]):
+    def log(self, git_arguments: typing.Union[str, list], show_result = None):
         if isinstance(git_arguments, str):
             git_arguments = git_arguments.split(" ")
 
